@@ -149,8 +149,8 @@ theorem get_append_cases (l : List Conn) (n : Conn) (j : Nat) (y : Conn) (h : (l
 theorem get_append_old (l : List Conn) (n : Conn) (j : Nat) (y : Conn) (h : l[j]? = some y) : (l ++ [n])[j]? = some y := by
   rw [List.getElem?_append_left (lt_of_get h)]; exact h
 
-theorem good_open {s : Server} (hg : Good s) (hs : Safe s) (k : Kind) :
-    Good { s with conns := s.conns ++ [{ kind := k }] } := by
+theorem good_open {s : Server} (hg : Good s) (hs : Safe s) (k : Kind) (o : Option Nat) :
+    Good { s with conns := s.conns ++ [{ kind := k, outer := o }] } := by
   constructor
   · intro j y hj hcl
     rcases get_append_cases _ _ j y hj with h | ⟨_, rfl⟩
@@ -183,7 +183,8 @@ theorem good_open {s : Server} (hg : Good s) (hs : Safe s) (k : Kind) :
       · exact absurd rfl hh
       · cases hh
 
-theorem safe_open {s : Server} (hs : Safe s) (k : Kind) : Safe { s with conns := s.conns ++ [{ kind := k }] } := by
+theorem safe_open {s : Server} (hs : Safe s) (k : Kind) (o : Option Nat) :
+    Safe { s with conns := s.conns ++ [{ kind := k, outer := o }] } := by
   have fresh : execOf s s.conns.length = [] :=
     execL_none _ _ (fun e he => Nat.ne_of_lt (hs.engRange e he))
   constructor
